@@ -848,6 +848,21 @@ impl VM {
         else {
             let exemplar: crate::build::ir::Val = constraint.as_ref().into();
             let ir_val: crate::build::ir::Val = val.as_ref().into();
+            // Functions and modules have no representation as data, they
+            // would pass for NULL, which every exemplar admits.
+            let is_code = |v: &Value| matches!(v, F(_) | M(_));
+            let is_null = matches!(constraint.as_ref(), P(Empty));
+            if is_code(val.as_ref()) && !is_code(constraint.as_ref()) && !is_null {
+                return Err(Error::new(
+                    format!(
+                        "A {} does not have the shape of the constraint {}",
+                        if let F(_) = val.as_ref() { "function" } else { "module" },
+                        exemplar
+                    )
+                    .into(),
+                    val_pos,
+                ));
+            }
             if !exemplar.shape_admits(&ir_val) {
                 return Err(Error::new(
                     format!(
